@@ -168,12 +168,12 @@ type c26Answer struct {
 }
 
 type c26Stats struct {
-	evals, withFault, nontrivial, planChanged, deliveryChanged int64
-	gsoEntries, gso3, gsoShortLast, gsoAtSegLimit, gsoAtByteLimit, gsoAccepted int64
-	partial, rejectSingle, rejectMulti, eioOffload, noProgress, replayedAsSingles int64
+	evals, withFault, nontrivial, planChanged, deliveryChanged                               int64
+	gsoEntries, gso3, gsoShortLast, gsoAtSegLimit, gsoAtByteLimit, gsoAccepted               int64
+	partial, rejectSingle, rejectMulti, eioOffload, noProgress, replayedAsSingles            int64
 	holes, multiChunkNoFault, gsoAfterEIOInfo, errWithoutNoProgressInfo, lostToRejectionRuns int64
-	maxCalls, maxAnswers                                                                          int64
-	outcomes                                                                                      map[uint64]struct{}
+	maxCalls, maxAnswers                                                                     int64
+	outcomes                                                                                 map[uint64]struct{}
 }
 
 func (s *c26Stats) merge(o *c26Stats) {
@@ -329,13 +329,24 @@ func (wd *c26World) poison() {
 			w.names[e][i] = 0xff
 		}
 		w.iovs[e] = wd.poisonIov[0]
-		w.entryEnd[e] = -7
-		w.entryPkts[e] = -7
+		c26PoisonIntSlot(w, "entryEnd", e)
+		c26PoisonIntSlot(w, "entryPkts", e)
 		if w.cmsg != nil {
 			off := e*w.cmsgSpace + unix.CmsgLen(0)
 			w.cmsg[off], w.cmsg[off+1] = 0xff, 0xff
 		}
 	}
+}
+
+// c26PoisonIntSlot poisons slot e of an optional []int bookkeeping field of the writer. It goes through reflection so
+// that a refactor which renames or removes such a private scratch field does not break the harness build.
+func c26PoisonIntSlot(w *batchWriter, field string, e int) {
+	f := reflect.ValueOf(w).Elem().FieldByName(field)
+	if !f.IsValid() || f.Kind() != reflect.Slice || e >= f.Len() {
+		return
+	}
+	p := (*int)(unsafe.Pointer(f.Index(e).UnsafeAddr()))
+	*p = -7
 }
 
 func (wd *c26World) abort(why string) {
